@@ -49,7 +49,7 @@ def rowsOf (n : Nat) (es : List (Nat × Nat × Float)) : FRows :=
 structure LevelD where
   n : Nat
   firsts : List Nat                 -- np+1 row offsets (contiguous blocks in rank order)
-  info : List (List Int)            -- per rank: the 12 dumped integers
+  info : List (List Int)            -- per rank: the 15 dumped integers
   A : FRows
   hasP : Bool
   P : FRows
@@ -59,7 +59,7 @@ structure LevelD where
 
 def rdLevel (np : Nat) : Rd LevelD := do
   let infoFlat ← rdVec
-  let info := (List.range np).map fun r => (infoFlat.drop (12 * r)).take 12
+  let info := (List.range np).map fun r => (infoFlat.drop (15 * r)).take 15
   let at_ ← rdVec
   let hasP ← rdNat
   let pt ← rdVec
@@ -207,11 +207,21 @@ def checkHistory : Rd Verdict := do
   for r in recs do
     if r.boBits != r.b0Bits then return specFail (base ++ s!"/spec/rhs_altered/op{r.kind}") s!"b0={showF r.b0} after={showF r.bo}" feats
   -- history-free: identical input, identical output (bit for bit), wherever it occurs in the history
-  let cyc := recs.filter fun r => r.kind ≤ 4
+  let cyc := recs.filter fun r => r.kind ≤ 4 || r.kind ≥ 8
   for r in cyc do
     for s in cyc do
       if r.x0 == s.x0 && r.b0 == s.b0 && r.xoBits != s.xoBits then
         return specFail (base ++ "/spec/history_dependent") s!"same (x,b) gave {showF r.xo} and later {showF s.xo}" feats
+  -- homogeneity under an exactly representable scaling (2^-62 and 2^40): cycle(s x, s b) = s cycle(x, b)
+  for r in cyc do
+    if r.kind ≥ 8 then
+      match cyc.find? (·.kind == 0) with
+      | some r1 =>
+        let sc := Float.scaleB 1.0 (if r.kind == 8 then -62 else 40)
+        let want := r1.xo.map (· * sc)
+        if !closeVecTol 1e-9 want r.xo then
+          return specFail (base ++ "/spec/linear/scaled") s!"s={sc} cycle(s x1, s b1)={showF r.xo} s cycle(x1,b1)={showF want}" feats
+      | none => pure ()
   -- model equality: each cycle as an independent pure call on the dumped hierarchy
   for r in cyc do
     let m := modelCycle o H r.x0 r.b0
@@ -266,7 +276,8 @@ def checkSolve (prop : String) : Rd Verdict := do
   if hist.length != iters + 1 then return specFail (base ++ "/spec/history_length") s!"{hist.length} entries for {iters} iterations" feats
   let tr := its.map fun x => relresF A x b0
   for ((h, t), k) in (hist.zip tr).zipIdx do
-    let okk := if t.isNaN || h.isNaN then (t.isNaN && h.isNaN) else (h - t).abs ≤ 1e-6 * (t.abs + h.abs) + 1e-12
+    let okk := if t.isNaN || h.isNaN then (t.isNaN && h.isNaN) else if t.isInf || h.isInf || t.abs > 1e140 || h.abs > 1e140 then (h.abs > 1e100 && t.abs > 1e100)   -- overflow regime of the squared norms: both must be huge
+               else (h - t).abs ≤ 1e-6 * (t.abs + h.abs) + 1e-12
     if !okk then return specFail (base ++ "/spec/history_true") s!"iterate {k}: reported {h}, true {t}" feats
   -- stop logic: the model's loop over the code's own iterates
   let cyc (x : List Float) : List Float := match its.idxOf? x with
@@ -343,6 +354,8 @@ def checkHier : Rd Verdict := do
         return specFail (base ++ "/spec/global_size") s!"level {k} rank {r}: global {inf.getD 1 0}x{inf.getD 2 0}, sum of local rows {l.n}" feats
       if inf.getD 4 0 != lr || inf.getD 5 0 != lr || inf.getD 6 0 != lr then
         return specFail (base ++ "/spec/work_vectors") s!"level {k} rank {r}: x,b,tmp sizes {inf.getD 4 0},{inf.getD 5 0},{inf.getD 6 0} for {lr} rows" feats
+      if inf.getD 12 0 != (l.n : Int) || inf.getD 13 0 != (l.n : Int) || inf.getD 14 0 != (l.n : Int) then
+        return specFail (base ++ "/spec/work_vectors_global") s!"level {k} rank {r}: x,b,tmp global sizes {inf.getD 12 0},{inf.getD 13 0},{inf.getD 14 0} on a level of {l.n} unknowns" feats
     if l.aTrips.any (fun e => e.1 ≥ l.n || e.2.1 ≥ l.n) then
       return specFail (base ++ "/spec/A_index_range") s!"level {k}: an entry of A refers to a row/column ≥ {l.n}" feats
     match H[k+1]? with
